@@ -38,6 +38,15 @@ Theorem C09_iter_complete :
 Proof. exact iter_complete. Qed.
 Print Assumptions C09_iter_complete.
 
+(* With distinct entries and code-base directories that are real directories, none
+   inside another, every path is yielded at most once (C16 relies on this).  The same
+   physical file can still appear under the names of links to it. *)
+Theorem C09_iter_nodup :
+  forall (fs : fsys) (cb : codebase) (out : list path),
+    NoDup (map fst fs) -> roots_ok fs (cb_roots cb) = true -> iter fs cb = Ok out -> NoDup out.
+Proof. exact iter_nodup. Qed.
+Print Assumptions C09_iter_nodup.
+
 (* ---- spelling ---- *)
 
 (* Membership (model and spec alike) depends on the real path only: two texts,
